@@ -502,6 +502,9 @@ func init() { replayGens["c02"] = replayC02 }
 var reC02 = regexp.MustCompile(`^v2\.Deserializer\.(\w+)`)
 
 func replayC02(o *Obligation) (string, string, string, bool) {
+	if strings.HasPrefix(o.Name, "stream.") {
+		return "serializer", "stream", streamReplay(true), true
+	}
 	m := reC02.FindStringSubmatch(o.Name)
 	if m == nil {
 		return "", "", "", false
@@ -795,4 +798,405 @@ func TestVerifReplay(t *testing.T) {
 }
 `
 	return "ds", ".", src, true
+}
+
+// ---------- C01 / C03 (Serializer / Deserializer primitives) ----------
+func init() { replayGens["c01"] = replayC01; replayGens["c03"] = replayC01 }
+
+func replayC01(o *Obligation) (string, string, string, bool) {
+	if strings.HasPrefix(o.Name, "stream.") {
+		return "serializer", "stream", streamReplay(o.Kind == "make" || o.Kind == "alloc"), true
+	}
+	if !strings.HasPrefix(o.Name, "v2.") {
+		return "", "", "", false
+	}
+	src := `package serializer
+
+import (
+	"bytes"
+	"fmt"
+	"math/big"
+	"testing"
+	"time"
+)
+
+// oracle: an independent reference encoder (hand-written little-endian layout) and read-back, over
+// boundary values of every primitive the contracts cover.
+func refLE(v uint64, n int) []byte {
+	out := make([]byte, n)
+	for i := 0; i < n; i++ {
+		out[i] = byte(v >> (8 * uint(i)))
+	}
+	return out
+}
+
+func TestVerifReplay(t *testing.T) {
+	id := func(err error) error { return err }
+	fail := func(format string, a ...any) { t.Fatalf("REPLAY-VIOLATION "+format, a...) }
+	u64s := []uint64{0, 1, 0x7f, 0x80, 0xff, 0x100, 0x1234, 0x7fff, 0x8000, 0xffff, 0x10000, 0x12345678, 0x7fffffff, 0x80000000, 0xffffffff, 0x100000000, 0x0123456789abcdef, 0x7fffffffffffffff, 0x8000000000000000, 0xffffffffffffffff}
+	for _, v := range u64s {
+		type tc struct {
+			name string
+			val  any
+			n    int
+			read func(d *Deserializer) (any, int, error)
+		}
+		cases := []tc{
+			{"uint8", uint8(v), 1, func(d *Deserializer) (any, int, error) { var x uint8; n, err := d.ReadNum(&x, id).Done(); return x, n, err }},
+			{"int8", int8(v), 1, func(d *Deserializer) (any, int, error) { var x int8; n, err := d.ReadNum(&x, id).Done(); return x, n, err }},
+			{"uint16", uint16(v), 2, func(d *Deserializer) (any, int, error) { var x uint16; n, err := d.ReadNum(&x, id).Done(); return x, n, err }},
+			{"int16", int16(v), 2, func(d *Deserializer) (any, int, error) { var x int16; n, err := d.ReadNum(&x, id).Done(); return x, n, err }},
+			{"uint32", uint32(v), 4, func(d *Deserializer) (any, int, error) { var x uint32; n, err := d.ReadNum(&x, id).Done(); return x, n, err }},
+			{"int32", int32(v), 4, func(d *Deserializer) (any, int, error) { var x int32; n, err := d.ReadNum(&x, id).Done(); return x, n, err }},
+			{"uint64", uint64(v), 8, func(d *Deserializer) (any, int, error) { var x uint64; n, err := d.ReadNum(&x, id).Done(); return x, n, err }},
+			{"int64", int64(v), 8, func(d *Deserializer) (any, int, error) { var x int64; n, err := d.ReadNum(&x, id).Done(); return x, n, err }},
+		}
+		for _, c := range cases {
+			b, err := NewSerializer().WriteNum(c.val, id).Serialize()
+			want := refLE(v, c.n)
+			if err != nil || !bytes.Equal(b, want) {
+				fail("WriteNum(%s %v) = %x, %v; reference layout %x", c.name, c.val, b, err, want)
+			}
+			got, n, err := c.read(NewDeserializer(b))
+			if err != nil || n != c.n || got != c.val {
+				fail("ReadNum(%s) of %x = %v, %d, %v; written value %v", c.name, b, got, n, err, c.val)
+			}
+		}
+		// payload length marker
+		if v <= 0xffffffff {
+			b, err := NewSerializer().WritePayloadLength(int(v), id).Serialize()
+			if err != nil || !bytes.Equal(b, refLE(v, 4)) {
+				fail("WritePayloadLength(%d) = %x, %v; reference layout %x", v, b, err, refLE(v, 4))
+			}
+			d := NewDeserializer(b)
+			l, err := d.ReadPayloadLength()
+			if err != nil || uint64(l) != v {
+				fail("ReadPayloadLength of %x = %d, %v; written %d", b, l, err, v)
+			}
+		}
+	}
+	for _, v := range []bool{false, true} {
+		b, err := NewSerializer().WriteBool(v, id).Serialize()
+		want := []byte{0}
+		if v {
+			want = []byte{1}
+		}
+		if err != nil || !bytes.Equal(b, want) {
+			fail("WriteBool(%v) = %x, %v", v, b, err)
+		}
+		var x bool
+		n, err := NewDeserializer(b).ReadBool(&x, id).Done()
+		if err != nil || n != 1 || x != v {
+			fail("ReadBool of %x = %v, %d, %v", b, x, n, err)
+		}
+	}
+	for bb := 2; bb < 256; bb += 51 { // non-canonical bools are rejected
+		var x bool
+		if _, err := NewDeserializer([]byte{byte(bb)}).ReadBool(&x, id).Done(); err == nil {
+			fail("ReadBool accepted the non-canonical byte %#x", bb)
+		}
+	}
+	// variable-length byte slices and strings: every prefix width at its boundary lengths
+	widths := map[SeriLengthPrefixType]int{SeriLengthPrefixTypeAsByte: 1, SeriLengthPrefixTypeAsUint16: 2, SeriLengthPrefixTypeAsUint32: 4}
+	maxes := map[SeriLengthPrefixType]int{SeriLengthPrefixTypeAsByte: 255, SeriLengthPrefixTypeAsUint16: 65535, SeriLengthPrefixTypeAsUint32: 1 << 32}
+	for lt, w := range widths {
+		for _, l := range []int{0, 1, 2, 254, 255, 256, 257, 65534, 65535, 65536, 65537} {
+			data := make([]byte, l)
+			for i := range data {
+				data[i] = byte(i*7 + 3)
+			}
+			b, err := NewSerializer().WriteVariableByteSlice(data, lt, id, 0, 0).Serialize()
+			if l > maxes[lt] {
+				if err == nil {
+					fail("WriteVariableByteSlice(len %d, prefix width %d) succeeded: %d bytes", l, w, len(b))
+				}
+			} else {
+				want := append(refLE(uint64(l), w), data...)
+				if err != nil || !bytes.Equal(b, want) {
+					fail("WriteVariableByteSlice(len %d, prefix width %d): %d bytes, err %v; reference layout has %d bytes, prefix %x vs %x", l, w, len(b), err, len(want), b[:min(len(b), w)], want[:w])
+				}
+				var out []byte
+				n, err := NewDeserializer(b).ReadVariableByteSlice(&out, lt, id, 0, 0).Done()
+				if err != nil || n != len(b) || !bytes.Equal(out, data) {
+					fail("ReadVariableByteSlice(len %d, prefix width %d) read back %d bytes, consumed %d of %d, err %v", l, w, len(out), n, len(b), err)
+				}
+				sb, err := NewSerializer().WriteString(string(data), lt, id, 0, 0).Serialize()
+				if err != nil || !bytes.Equal(sb, want) {
+					fail("WriteString(len %d, prefix width %d): %d bytes, err %v; reference layout has %d bytes", l, w, len(sb), err, len(want))
+				}
+				var s string
+				n, err = NewDeserializer(sb).ReadString(&s, lt, id, 0, 0).Done()
+				if err != nil || n != len(sb) || s != string(data) {
+					fail("ReadString(len %d, prefix width %d) read back %d bytes, consumed %d of %d, err %v", l, w, len(s), n, len(sb), err)
+				}
+			}
+			// length bounds
+			if l > 1 && l <= maxes[lt] { // maxLen 0 means unbounded
+				if _, err := NewSerializer().WriteVariableByteSlice(data, lt, id, 0, l-1).Serialize(); err == nil {
+					fail("WriteVariableByteSlice(len %d) accepted with maxLen %d", l, l-1)
+				}
+			}
+			if l <= maxes[lt] {
+				if _, err := NewSerializer().WriteVariableByteSlice(data, lt, id, l+1, 0).Serialize(); err == nil {
+					fail("WriteVariableByteSlice(len %d) accepted with minLen %d", l, l+1)
+				}
+			}
+		}
+	}
+	// timestamps: nanoseconds since the epoch, saturated to [0, MaxInt64]
+	for _, tc := range []struct {
+		sec, nsec int64
+		want      uint64
+	}{
+		{0, 0, 0}, {1, 5, 1000000005}, {-1, 0, 0}, {-1, 999999999, 0}, {1700000000, 123456789, 1700000000123456789},
+		{9223372036, 854775807, 9223372036854775807}, {9223372036, 854775808, 9223372036854775807}, {9223372036, 999999999, 9223372036854775807},
+		{9223372037, 0, 9223372036854775807}, {1 << 40, 0, 9223372036854775807},
+	} {
+		tm := time.Unix(tc.sec, tc.nsec)
+		if got := TimeToUint64(tm); got != tc.want {
+			fail("TimeToUint64(time.Unix(%d, %d)) = %d, documented saturation gives %d", tc.sec, tc.nsec, got, tc.want)
+		}
+		tb, err := NewSerializer().WriteTime(tm, id).Serialize()
+		if err != nil || !bytes.Equal(tb, refLE(tc.want, 8)) {
+			fail("WriteTime(time.Unix(%d, %d)) = %x, %v; reference layout %x", tc.sec, tc.nsec, tb, err, refLE(tc.want, 8))
+		}
+		var back time.Time
+		n, err := NewDeserializer(tb).ReadTime(&back, id).Done()
+		if err != nil || n != 8 || uint64(back.UnixNano()) != tc.want {
+			fail("ReadTime of %x = %v (%d ns), %d, %v; written %d ns", tb, back, back.UnixNano(), n, err, tc.want)
+		}
+	}
+	// an in-range stamp inside the last representable second is read exactly
+	{
+		var back time.Time
+		const ns = uint64(9223372036500000000)
+		if _, err := NewDeserializer(refLE(ns, 8)).ReadTime(&back, id).Done(); err != nil || uint64(back.UnixNano()) != ns {
+			fail("ReadTime of %x = %d ns, %v; the encoded instant is %d ns (inside the int64 range)", refLE(ns, 8), back.UnixNano(), err, ns)
+		}
+	}
+	// array-order validators compare every element with its predecessor
+	for _, mk := range []func() ElementValidationFunc{(&ArrayRules{}).LexicalOrderValidator, (&ArrayRules{}).LexicalOrderWithoutDupsValidator} {
+		for _, seq := range [][]byte{{1, 3, 2}, {2, 3, 1}, {1, 2, 3, 0}} {
+			v := mk()
+			var firstErr = -1
+			for i, e := range seq {
+				if err := v(i, []byte{e}); err != nil {
+					firstErr = i
+					break
+				}
+			}
+			want := -1
+			for i := 1; i < len(seq); i++ {
+				if seq[i] < seq[i-1] {
+					want = i
+					break
+				}
+			}
+			if firstErr != want {
+				fail("lexical order validator on %v: first rejected index %d, reference %d", seq, firstErr, want)
+			}
+		}
+	}
+	// uint256: little-endian, 32 bytes; decoding leaves the input untouched
+	for _, hex := range []string{"0", "1", "ff", "100", "0102030405060708090a0b0c0d0e0f101112131415161718191a1b1c1d1e1f20"} {
+		v, _ := new(big.Int).SetString(hex, 16)
+		ub, err := NewSerializer().WriteUint256(v, id).Serialize()
+		be := v.FillBytes(make([]byte, 32))
+		want := make([]byte, 32)
+		for i := range be {
+			want[31-i] = be[i]
+		}
+		if err != nil || !bytes.Equal(ub, want) {
+			fail("WriteUint256(0x%s) = %x, %v; reference layout %x", hex, ub, err, want)
+		}
+		in := append([]byte{}, ub...)
+		var out *big.Int
+		n, err := NewDeserializer(in).ReadUint256(&out, id).Done()
+		if err != nil || n != 32 || out.Cmp(v) != 0 {
+			fail("ReadUint256 of %x = %v, %d, %v; written 0x%s", ub, out, n, err, hex)
+		}
+		if !bytes.Equal(in, ub) {
+			fail("ReadUint256 changed its input: %x became %x", ub, in)
+		}
+	}
+	// sequencing: fields are laid out back to back
+	b, err := NewSerializer().WriteNum(uint16(0xbeef), id).WriteBool(true, id).WriteNum(uint32(0xdeadc0de), id).WriteByte(7, id).WriteBytes([]byte{1, 2, 3}, id).Serialize()
+	want := []byte{0xef, 0xbe, 1, 0xde, 0xc0, 0xad, 0xde, 7, 1, 2, 3}
+	if err != nil || !bytes.Equal(b, want) {
+		fail("chained writes = %x, %v; reference layout %x", b, err, want)
+	}
+	var a uint16
+	var bo bool
+	var c uint32
+	var by byte
+	var bs []byte
+	n, err := NewDeserializer(b).ReadNum(&a, id).ReadBool(&bo, id).ReadNum(&c, id).ReadByte(&by, id).ReadBytes(&bs, 3, id).Done()
+	if err != nil || n != len(b) || a != 0xbeef || !bo || c != 0xdeadc0de || by != 7 || !bytes.Equal(bs, []byte{1, 2, 3}) {
+		fail("chained reads of %x = %x %v %x %d %x, consumed %d, err %v", b, a, bo, c, by, bs, n, err)
+	}
+	_ = fmt.Sprint
+}
+`
+	return "serializer", ".", src, true
+}
+
+// stream helpers: every Write*/Read* pair written into a buffer and read back through readers that split
+// their reads differently; hostile size prefixes must neither panic nor drive an allocation.
+const replayStreamSrc = `package stream
+
+import (
+	"bytes"
+	"encoding/binary"
+	"io"
+	"runtime"
+	"testing"
+	"testing/iotest"
+
+	"github.com/iotaledger/hive.go/serializer/v2"
+)
+
+type chunkReader struct {
+	r io.Reader
+	n int
+}
+
+func (c *chunkReader) Read(p []byte) (int, error) {
+	if len(p) > c.n {
+		p = p[:c.n]
+	}
+	return c.r.Read(p)
+}
+
+// endless: a reader that claims nothing about its length and delivers zeros forever
+type endless struct{ delivered int }
+
+func (e *endless) Read(p []byte) (int, error) {
+	if len(p) > 512 {
+		p = p[:512]
+	}
+	for i := range p {
+		p[i] = 0
+	}
+	e.delivered += len(p)
+	if e.delivered > 1<<20 {
+		return 0, io.ErrUnexpectedEOF
+	}
+	return len(p), nil
+}
+
+func TestVerifReplay(t *testing.T) {
+	if hostileFirst {
+		hostileChecks(t)
+		roundTripChecks(t)
+	} else {
+		roundTripChecks(t)
+		hostileChecks(t)
+	}
+}
+
+func roundTripChecks(t *testing.T) {
+	fail := func(format string, a ...any) { t.Fatalf("REPLAY-VIOLATION "+format, a...) }
+	readers := map[string]func(b []byte) io.Reader{
+		"bytes.Reader":        func(b []byte) io.Reader { return bytes.NewReader(b) },
+		"iotest.OneByteReader": func(b []byte) io.Reader { return iotest.OneByteReader(bytes.NewReader(b)) },
+		"iotest.HalfReader":    func(b []byte) io.Reader { return iotest.HalfReader(bytes.NewReader(b)) },
+		"iotest.DataErrReader": func(b []byte) io.Reader { return iotest.DataErrReader(bytes.NewReader(b)) },
+		"3-byte chunks":        func(b []byte) io.Reader { return &chunkReader{bytes.NewReader(b), 3} },
+	}
+	payload := make([]byte, 300)
+	for i := range payload {
+		payload[i] = byte(i*13 + 5)
+	}
+	for name, mk := range readers {
+		// Write / Read
+		var buf bytes.Buffer
+		w := io.Writer(struct{ io.Writer }{&buf})
+		if err := Write(w, uint8(0xab)); err != nil { fail("Write: %v", err) }
+		if err := Write(w, uint16(0xbeef)); err != nil { fail("Write: %v", err) }
+		if err := Write(w, uint32(0xdeadc0de)); err != nil { fail("Write: %v", err) }
+		if err := Write(w, uint64(0x0123456789abcdef)); err != nil { fail("Write: %v", err) }
+		if err := Write(w, int32(-2)); err != nil { fail("Write: %v", err) }
+		want := []byte{0xab, 0xef, 0xbe, 0xde, 0xc0, 0xad, 0xde, 0xef, 0xcd, 0xab, 0x89, 0x67, 0x45, 0x23, 0x01, 0xfe, 0xff, 0xff, 0xff}
+		if !bytes.Equal(buf.Bytes(), want) {
+			fail("Write[T] layout %x, reference %x", buf.Bytes(), want)
+		}
+		r := mk(buf.Bytes())
+		a, err := Read[uint8](r)
+		if err != nil || a != 0xab { fail("Read[uint8] through %s = %x, %v", name, a, err) }
+		b, err := Read[uint16](r)
+		if err != nil || b != 0xbeef { fail("Read[uint16] through %s = %x, %v", name, b, err) }
+		c, err := Read[uint32](r)
+		if err != nil || c != 0xdeadc0de { fail("Read[uint32] through %s = %x, %v", name, c, err) }
+		d, err := Read[uint64](r)
+		if err != nil || d != 0x0123456789abcdef { fail("Read[uint64] through %s = %x, %v", name, d, err) }
+		e, err := Read[int32](r)
+		if err != nil || e != -2 { fail("Read[int32] through %s = %d, %v", name, e, err) }
+		// WriteBytes / ReadBytes
+		buf.Reset()
+		if err := WriteBytes(w, payload); err != nil { fail("WriteBytes: %v", err) }
+		got, err := ReadBytes(mk(buf.Bytes()), len(payload))
+		if err != nil || !bytes.Equal(got, payload) {
+			fail("ReadBytes(%d) through %s: %d bytes, err %v (the stream holds all %d bytes)", len(payload), name, len(got), err, len(payload))
+		}
+		// WriteBytesWithSize / ReadBytesWithSize, every prefix width
+		for _, lt := range []serializer.SeriLengthPrefixType{serializer.SeriLengthPrefixTypeAsByte, serializer.SeriLengthPrefixTypeAsUint16, serializer.SeriLengthPrefixTypeAsUint32, serializer.SeriLengthPrefixTypeAsUint64} {
+			for _, l := range []int{0, 1, 5, 255, 256, 300} {
+				if lt == serializer.SeriLengthPrefixTypeAsByte && l > 255 {
+					continue
+				}
+				buf.Reset()
+				if err := WriteBytesWithSize(w, payload[:l], lt); err != nil { fail("WriteBytesWithSize(%d): %v", l, err) }
+				got, err := ReadBytesWithSize(mk(buf.Bytes()), lt)
+				if err != nil || !bytes.Equal(got, payload[:l]) {
+					fail("ReadBytesWithSize(len %d, prefix type %d) through %s: %d bytes, err %v", l, lt, name, len(got), err)
+				}
+				buf.Reset()
+				if err := WriteObjectWithSize(w, payload[:l], lt, func(b []byte) ([]byte, error) { return b, nil }); err != nil { fail("WriteObjectWithSize: %v", err) }
+				obj, err := ReadObjectWithSize(mk(buf.Bytes()), lt, func(b []byte) ([]byte, int, error) { return b, len(b), nil })
+				if err != nil || !bytes.Equal(obj, payload[:l]) {
+					fail("ReadObjectWithSize(len %d, prefix type %d) through %s: %d bytes, err %v", l, lt, name, len(obj), err)
+				}
+			}
+		}
+		// collection of sized items
+		buf.Reset()
+		ws := &ByteBuffer{}
+		_ = ws
+	}
+}
+
+// hostile size prefixes: no panic, no allocation in proportion to the prefix
+func hostileChecks(t *testing.T) {
+	fail := func(format string, a ...any) { t.Fatalf("REPLAY-VIOLATION "+format, a...) }
+	hostile := func(desc string, f func()) {
+		defer func() {
+			if r := recover(); r != nil {
+				fail("%s panicked: %v", desc, r)
+			}
+		}()
+		var m0, m1 runtime.MemStats
+		runtime.GC()
+		runtime.ReadMemStats(&m0)
+		f()
+		runtime.ReadMemStats(&m1)
+		if d := m1.TotalAlloc - m0.TotalAlloc; d > 64<<20 {
+			fail("%s allocated %d MiB for an input of a few bytes", desc, d>>20)
+		}
+	}
+	pre := make([]byte, 8)
+	binary.LittleEndian.PutUint64(pre, 0xffffffffffffffff)
+	hostile("ReadBytesWithSize(uint64 prefix 0xffffffffffffffff, no data)", func() { _, _ = ReadBytesWithSize(bytes.NewReader(pre), serializer.SeriLengthPrefixTypeAsUint64) })
+	binary.LittleEndian.PutUint64(pre, 0x8000000000000000)
+	hostile("ReadBytesWithSize(uint64 prefix 1<<63, no data)", func() { _, _ = ReadBytesWithSize(bytes.NewReader(pre), serializer.SeriLengthPrefixTypeAsUint64) })
+	pre4 := []byte{0xff, 0xff, 0xff, 0x3f}
+	hostile("ReadBytesWithSize(uint32 prefix 0x3fffffff = 1 GiB, no data)", func() { _, _ = ReadBytesWithSize(bytes.NewReader(pre4), serializer.SeriLengthPrefixTypeAsUint32) })
+	hostile("ReadBytes(-1)", func() { _, _ = ReadBytes(bytes.NewReader(nil), -1) })
+	hostile("ReadObjectWithSize(uint32 prefix 1 GiB, no data)", func() {
+		_, _ = ReadObjectWithSize(bytes.NewReader(pre4), serializer.SeriLengthPrefixTypeAsUint32, func(b []byte) ([]byte, int, error) { return b, len(b), nil })
+	})
+}
+` + ""
+
+func streamReplay(hostileFirst bool) string {
+	return replayStreamSrc + fmt.Sprintf("\nconst hostileFirst = %v\n", hostileFirst)
 }
